@@ -512,3 +512,43 @@ V('C11-eos-drops-space', 'C11', TRF,
   "            raise LatexWalkerEndOfStream()", 'R11g')
 V('C11-benign', 'C11', TRF,
   "        # inspect the next character --\n", "        # inspect the next char --\n", 'SILENT')
+
+
+# ----------------------------------------------------------------------- C01
+NC = 'pylatexenc/latexnodes/_nodescollector.py'
+EX = 'pylatexenc/latexnodes/parsers/_expression.py'
+V('C01-flush-span-off-by-one', 'C01', NC,
+  "            pos_end=charspos+len(chars),\n", "            pos_end=charspos+len(chars)+1,\n", 'R01a')
+V('C01-space-node-wrong-start', 'C01', NC,
+  "                                                  pos=tok.pos-len(tok.pre_space),\n                                                  pos_end=tok.pos)",
+  "                                                  pos=tok.pos,\n                                                  pos_end=tok.pos)", 'R01a')
+V('C01-prespace-dropped-on-stop', 'C01', NC,
+  """            if self.include_stop_token_pre_space_chars:
+                # quickly push the pre_space whitespace into the pending chars
+                # so they get included into the content, as well
+                self.push_pending_chars(
+                    chars=tok.pre_space,
+                    pos=tok.pos - len(tok.pre_space),
+                )
+                rewind_pre_space=False""",
+  """            if self.include_stop_token_pre_space_chars:
+                rewind_pre_space=False""", 'R01f')
+V('C01-prespace-dropped-before-construct', 'C01', NC,
+  """        elif tok.pre_space:
+            spacestrnode = latex_walker.make_node(LatexCharsNode,""",
+  """        elif tok.pre_space and self._nodelist:
+            spacestrnode = latex_walker.make_node(LatexCharsNode,""", 'R01f')
+V('C01-comment-from-two-tokens', 'C01', NC,
+  "                comment_post_space=tok.post_space,\n                pos=tok.pos,\n                pos_end=tok.pos_end\n        )",
+  "                comment_post_space=tok.post_space,\n                pos=tok.pos,\n                pos_end=tok.pos_end - len(tok.post_space)\n        )", 'R01c')
+V('C01-call-node-end-before-args', 'C01', 'pylatexenc/macrospec/_macrocallparser.py',
+  "        pos_start = self.token_call.pos #token_reader.cur_pos()\n",
+  "        pos_start = self.token_call.pos #token_reader.cur_pos()\n        pos_end = token_reader.cur_pos()\n", 'R01d')
+V('C01-group-end-at-token', 'C01', 'pylatexenc/latexnodes/parsers/_delimited.py',
+  "        token_reader.move_past_token(token)\n        logger.debug(\n            \"LatexDelimitedExpressionParser moved",
+  "        token_reader.move_to_token(token)\n        logger.debug(\n            \"LatexDelimitedExpressionParser moved", 'R01d')
+V('C01-nodelist-end-from-first', 'C01', ND,
+  "        for n in reversed(nodelist):\n            if n is not None:\n                pos_end = n.pos_end",
+  "        for n in nodelist:\n            if n is not None:\n                pos_end = n.pos_end", 'R01i')
+V('C01-benign', 'C01', NC,
+  "        # a node list that we are building\n", "        # the node list that we are building\n", 'SILENT')
